@@ -29,10 +29,27 @@ def run_case(case):
     for st in sc["steps"]:
         if st["op"] == "pull" and rng.random() < 0.5:
             st["cb"] = "ok"
-    sess = gen.make_session(case["impl"], sc["dims"], case["seed"])
+    slow = rng.random() < 0.15
+    kw = {}
+    if slow:
+        # a slow link: whole-command limits expire while the device is still talking, the close handshakes happen late
+        kw["call_cost"] = rng.choice([0.02, 0.1])
+        sc["dims"]["frag"] = "whole"       # (byte-wise reads on such a link would make the 10 s read timeout expire inside packets)
+        sc["dims"]["empty_rate"] = 0.0
+        for st in sc["steps"]:
+            if st["op"] in ("shell", "exec_out"):
+                st["timeout_s"] = rng.choice([0.5, 2.0, 8.0])
+    sess = gen.make_session(case["impl"], sc["dims"], case["seed"], **kw)
     r = scen.Runner(sess, sc)
     try:
         res = r.run()
+        # every WRTE that was DELIVERED to the caller must have been acknowledged, also for generators that were abandoned
+        for (st_, o, _) in res:
+            if st_["op"] == "streaming_shell" and st_.get("take") is not None and o.ok:
+                dest = b"shell:" + st_["cmd"].encode()
+                for ds in sess.sim.all_streams:
+                    if ds.dest == dest and ds.acked < len(o.value):
+                        sess.monitor.flag("C04", "ack", "streaming_shell(%s) delivered %d payloads to the caller but the host sent only %d OKAYs on that stream" % (st_["cmd"][:20], len(o.value), ds.acked))
         viol = [{"mechanism": v.rule, "detail": v.detail} for v in sess.monitor.of("C04")]
         m = sess.monitor
         stats = {k: m.counts[k] for k in ("opens", "okays_checked", "wrtes_checked", "clses_checked", "calls_closed_checked", "streams_closed_clean", "streams_abandoned", "noise_packets", "host_packets", "dev_packets")}
@@ -40,6 +57,9 @@ def run_case(case):
         stats["steps_raised"] = sum(1 for (_, o, _) in res if not o.ok)
         stats["pushes_failed_by_device"] = sum(1 for (st_, o, _) in res if st_.get("fail"))
         stats["long_commands"] = sum(1 for (st_, o, _) in res if len(st_.get("cmd", "")) > 1000)
+        stats["slow_link_cases"] = 1 if slow else 0
+        stats["total_limit_expired"] = sum(1 for (st_, o, _) in res if st_.get("timeout_s") is not None and not o.ok)
+        stats["pulls_into_full_disk"] = sum(1 for (st_, o, _) in res if st_.get("dest") == "failing")
         stats["side_result_mismatches"] = sum(len(v) for (_, _, v) in res)
         states = {}
         for st in sess.sim.all_streams:
